@@ -79,6 +79,12 @@ def base(rng, n_lo=1, n_hi=6, **kw):
                     "body_len": rng.choice([1, 1, 1, 2, 4, 10])}}
 
 
+def maybe_pid_reuse(rng, scn, p=0.15):
+    """The OS may give a new job process the pid of a dead one."""
+    if rng.random() < p:
+        scn["cfg"]["pid_reuse"] = True
+
+
 def maybe_trace(rng, scn, p=0.4):
     if rng.random() < p:
         scn["cfg"]["trace"] = True
@@ -88,9 +94,23 @@ def maybe_trace(rng, scn, p=0.4):
 # ---------------------------------------------------------------- profiles
 
 
+def add_outpre(rng, scn):
+    """Dependencies hidden behind a pre-task attached to another upstream's output wrapper."""
+    tasks = scn["tasks"]
+    for x, t in enumerate(tasks):
+        wrapped = [u for u, e in t.get("deps", []) if e == "wrapped"]
+        if not wrapped or rng.random() > 0.5:
+            continue
+        have = {u for u, _ in t["deps"]}
+        cands = [u for u in range(x) if u not in have]
+        if cands:
+            t["deps"].append([rng.choice(cands), ["outpre", rng.choice(wrapped)]])
+
+
 def gen_C04(rng, tier):
     scn = base(rng, 2, 7, p_dep=0.85)
     n = len(scn["tasks"])
+    add_outpre(rng, scn)
     if rng.random() < 0.25:
         add_failures(rng, scn, 0.2)
     if rng.random() < 0.3:
@@ -166,6 +186,7 @@ def gen_C06(rng, tier):
             spec["start"] = {"after_steps": rng.randint(0, 100)}
         scn["procs"].append(spec)
     maybe_trace(rng, scn, 0.15)
+    maybe_pid_reuse(rng, scn)
     return scn
 
 
@@ -181,8 +202,24 @@ def gen_C07(rng, tier):
     two_runs = rng.random() < 0.3 and all(t["kind"] == "file" for t in scn["tokens"])
     if two_runs:
         sub = sorted(rng.sample(range(n), rng.randint(1, n)))
-        scn["procs"].append({"xp": "x0", "plan": simple_plan(rng, n, subset=sub) + [["xpwait"]]})
-        scn["procs"].append({"xp": "x0", "plan": simple_plan(rng, n), "start": {"after_exit": 0, "jobs_ended": True}})
+        first = {"xp": "x0", "plan": simple_plan(rng, n, subset=sub) + [["xpwait"]]}
+        second = {"xp": "x0", "plan": simple_plan(rng, n), "start": {"after_exit": 0, "jobs_ended": True}}
+        if rng.random() < 0.4:
+            # the first run is killed while jobs run; the second adopts them (and a job may be
+            # killed only then)
+            first["crash"] = {"sig": rng.choice(["KILL", "TERM"]),
+                              "trigger": {"event": "body-start", "nth": rng.randint(1, 3), "delay": rng.choice([0, 2, 6, 15])}}
+            second["start"] = {"after_exit": 0}
+            scn["cfg"]["body_len"] = rng.choice([8, 20, 50])
+            if rng.random() < 0.7:
+                # kill (mostly SIGKILL: no marker at all is left) the process the second run adopts
+                scn["jobfaults"] = [{"x": None, "sig": rng.choice(["KILL", "KILL", "KILL", "TERM"]), "when": "adopted",
+                                     "delay": rng.choice([0, 1, 3, 8, 20])}]
+            else:
+                for jf in scn["jobfaults"]:
+                    jf["delay"] = rng.choice([0, 10, 40, 100, 200])
+        scn["procs"].append(first)
+        scn["procs"].append(second)
         # outcomes must not depend on the attempt for the model to be exact
     else:
         scn["procs"].append({"xp": "x0", "plan": simple_plan(rng, n)})
@@ -274,6 +311,17 @@ def gen_C11(rng, tier):
     scn["procs"].append({"xp": "x0", "plan": [list(op) for op in plan], "start": start})
     if scn["procs"][0]["crash"]["trigger"].get("line_frac") is None and rng.random() < 0.2:
         maybe_trace(rng, scn, 1.0)
+    maybe_pid_reuse(rng, scn, 0.25)
+    if rng.random() < 0.25:
+        # a job is killed at some point of its (long) body: before the scheduler dies, while
+        # nobody watches it, or after the restarted experiment adopted it
+        x = rng.randrange(n)
+        if rng.random() < 0.5:
+            scn["jobfaults"].append({"x": x, "sig": rng.choice(["KILL", "KILL", "TERM"]), "when": "body",
+                                     "delay": rng.choice([0, 5, 30, 80, 150, 300])})
+        else:
+            scn["jobfaults"].append({"x": None, "sig": rng.choice(["KILL", "KILL", "TERM"]), "when": "adopted",
+                                     "delay": rng.choice([0, 1, 3, 8, 20])})
     return scn
 
 
@@ -305,6 +353,8 @@ def gen_C16(rng, tier):
                 spec["start"]["jobs_ended"] = True
         scn["procs"].append(spec)
     scn["cfg"]["readdir_shuffle"] = rng.random() < 0.4
+    if not any("line_frac" in ((p.get("crash") or {}).get("trigger") or {}) for p in scn["procs"]):
+        maybe_trace(rng, scn, 0.35)       # pre-emption inside __enter__/__exit__ (contender vs. leaving process)
     if rng.random() < 0.3:
         # a contender entering the same experiment while somebody may hold it
         sub = sorted(rng.sample(range(n), rng.randint(1, n)))
@@ -363,12 +413,13 @@ def gen_C19(rng, tier):
     if relaunch:
         x = rng.randrange(n)
         scn["tasks"][x]["out"] = [rng.choice(["exit1", "exc"]), "ok"]
-    xps = ["x0", "x1"] if rng.random() < 0.5 else ["x0"]
+    # experiment names: unrelated, or one a prefix/substring of the other
+    xps = rng.choice([["x0", "x1"], ["x0"], ["ir", "ir-large"], ["mn", "bm-mn-v2"]])
     nruns = rng.randint(1, 3)
     for i in range(nruns):
         sub = sorted(rng.sample(range(n), rng.randint(1, n)))
         plan = simple_plan(rng, n, subset=sub, waits=rng.random() < 0.4)
-        spec = {"xp": rng.choice(xps), "plan": plan}
+        spec = {"xp": xps[i % len(xps)] if rng.random() < 0.6 else rng.choice(xps), "plan": plan}
         r = rng.random()
         if r < 0.15:
             plan.insert(rng.randint(0, len(plan)), ["raise"])
@@ -427,6 +478,9 @@ def gen_C20(rng, tier):
         elif last and rng.random() < 0.25:
             spec["ops"].append({"fix": True, "cleanup": rng.random() < 0.5})
         scn["procs"].append(spec)
+        if not last and rng.random() < 0.2:
+            # the workspace is moved between two repairs: links made so far dangle
+            scn["procs"].append({"kind": "relocate", "start": {"after_exit": len(scn["procs"]) - 1}})
     scn["procs"].append({"xp": "x0", "variant": "new", "plan": simple_plan(rng, n, waits=False) + [["xpwait"]],
                          "start": {"after_exit": len(scn["procs"]) - 1}})
     scn["cfg"]["readdir_shuffle"] = rng.random() < 0.6
